@@ -41,6 +41,22 @@ type c08Case struct {
 
 func genC08(t *rapid.T) c08Case {
 	if rapid.Bool().Draw(t, "json") {
+		if rapid.IntRange(0, 59).Draw(t, "veryDeep") == 0 {
+			// a chain of 300-1100 nested arrays / objects around a small value ("any nesting")
+			depth := rapid.SampledFrom([]int{300, 513, 600, 1100}).Draw(t, "deepDepth")
+			kinds := rapid.SliceOfN(rapid.IntRange(0, 2), 1, 5).Draw(t, "deepKinds")
+			opens := []string{"[", `{"a":`, `[1,{"k":null,"v":`}
+			closes := []string{"]", "}", `},"t"]`}
+			var head strings.Builder
+			tail := make([]string, depth)
+			for i := 0; i < depth; i++ {
+				k := kinds[i%len(kinds)]
+				head.WriteString(opens[k])
+				tail[depth-1-i] = closes[k]
+			}
+			leaf := rapid.SampledFrom([]string{`"x"`, `1.5`, `null`, `true`, `[]`, `{}`, `{"":[1,"2"]}`}).Draw(t, "deepLeaf")
+			return c08Case{Format: "json", Doc: head.String() + leaf + strings.Join(tail, "")}
+		}
 		o := gen.JSONOpts{Hard: true, MaxDepth: 8, MaxNodes: 50, MaxWidth: 3}
 		switch rapid.IntRange(0, 9).Draw(t, "flavour") {
 		case 0, 1: // narrow and deep
